@@ -213,7 +213,7 @@ PROPS["C20"] = P([("options", "asan", 1200, 0.4), ("options", "fast", 1200, 0.35
     expect_probes=["completed", "rejected", "both_tolerances_disabled", "zero_iterations", "zero_smoothing_steps", "level_cap_2",
                    "take_without_caches", "poison_differential", "exit", "returned", "exception", "catalogue_supported",
                    "catalogue_unsupported", "rho_checked", "rho_checked_relative_tolerance_disabled",
-                   "rho_checked_absolute_tolerance_disabled"])
+                   "rho_checked_absolute_tolerance_disabled", "error_figures_checked"])
 
 NOT_APPLICABLE = {
     "C16": "pure sequential function (A,b)->x: SparseLUSolver factorises in its constructor, solveInPlace is const; no schedule, clock, I/O, fault or history for a simulator to own (DESIGN.md 9.3)",
